@@ -444,3 +444,679 @@ Section Inv2.
     exact (inv_reg_equiv s _ Hs Hnd Heq).
   Qed.
 End Inv2.
+
+(* ================= duplicate ================= *)
+Lemma mapM_st_spec {S A B} (f : S -> A -> option (S * B)) (P : S -> Prop) (R : S -> S -> Prop) (Q : S -> B -> Prop) :
+  (forall s, R s s) -> (forall a b c, R a b -> R b c -> R a c) ->
+  (forall s s' y, Q s y -> R s s' -> Q s' y) ->
+  (forall s x s' y, P s -> f s x = Some (s', y) -> P s' /\ R s s' /\ Q s' y) ->
+  forall l s s' ys, P s -> mapM_st f s l = Some (s', ys) -> P s' /\ R s s' /\ Forall (Q s') ys.
+Proof.
+  intros Rrefl Rtrans Qmono Hf. induction l as [|x l IH]; simpl; intros s s' ys Hs.
+  - intros [= <- <-]. auto.
+  - destruct (f s x) as [[s1 y]|] eqn:Ef; [|discriminate].
+    destruct (mapM_st f s1 l) as [[s2 ys']|] eqn:Em; [|discriminate]. intros [= <- <-].
+    destruct (Hf _ _ _ _ Hs Ef) as [Hs1 [R1 Q1]]. destruct (IH _ _ _ Hs1 Em) as [Hs2 [R2 Q2]].
+    split; auto. split; [eauto|]. constructor; eauto.
+Qed.
+
+(* the heap and the registry only grow; ghost sets and variables are untouched *)
+Definition grow (s s' : st) : Prop :=
+  (exists ext, heap s' = heap s ++ ext) /\ (exists nr, reg s' = nr ++ reg s) /\
+  vars s' = vars s /\ det s' = det s /\ gone s' = gone s.
+(* every cell at an address >= n is registered under its id and has its children at addresses >= n *)
+Definition range_ok (n : nat) (s' : st) : Prop :=
+  forall x, n <= x < length (heap s') ->
+    exists c, cell_at s' x = Some c /\ (forall k, In k (all_kids c) -> n <= k) /\ In (k_id c, x) (reg s').
+
+Lemma grow_refl s : grow s s.
+Proof. repeat split; try (exists []; now rewrite ?app_nil_r). Qed.
+Lemma grow_trans a b c : grow a b -> grow b c -> grow a c.
+Proof.
+  intros [[e1 H1] [[n1 R1] [V1 [D1 G1]]]] [[e2 H2] [[n2 R2] [V2 [D2 G2]]]].
+  repeat split; try congruence.
+  - exists (e1 ++ e2). now rewrite H2, H1, app_assoc.
+  - exists (n2 ++ n1). now rewrite R2, R1, app_assoc.
+Qed.
+Lemma grow_len s s' : grow s s' -> length (heap s) <= length (heap s').
+Proof. intros [[e ->] _]. rewrite app_length. lia. Qed.
+Lemma grow_cell s s' x c : grow s s' -> cell_at s x = Some c -> cell_at s' x = Some c.
+Proof.
+  intros [[e He] _] Hc. unfold cell_at in *. rewrite He, nth_error_app1; auto. apply nth_error_Some. congruence.
+Qed.
+Lemma grow_reg s s' e : grow s s' -> In e (reg s) -> In e (reg s').
+Proof. intros [_ [[n ->] _]] Hin. apply in_or_app. auto. Qed.
+
+Definition growR (s s' : st) : Prop := grow s s' /\ range_ok (length (heap s)) s'.
+Lemma growR_refl s : growR s s.
+Proof. split; [apply grow_refl|]. intros x Hx. lia. Qed.
+Lemma growR_trans a b c : growR a b -> growR b c -> growR a c.
+Proof.
+  intros [G1 K1] [G2 K2]. split; [eapply grow_trans; eauto|]. intros x Hx.
+  destruct (Nat.lt_ge_cases x (length (heap b))) as [Hlt|Hge].
+  - destruct (K1 x) as [cx [Hc [Hk Hr]]]; [lia|]. exists cx. repeat split; auto.
+    + eapply grow_cell; eauto.
+    + eapply grow_reg; eauto.
+  - destruct (K2 x) as [cx [Hc [Hk Hr]]]; [lia|]. exists cx. repeat split; auto.
+    intros k Hin. apply Hk in Hin. apply grow_len in G1. lia.
+Qed.
+
+Section DupProofs.
+  Variable H : pystr -> pystr.
+  Variable ct : ctable.
+
+  Lemma alloc_grow s c o ps ks s' a : alloc H ct s c o ps ks = Some (s', a) -> grow s s'.
+  Proof.
+    intro Ea. apply alloc_shape in Ea as [i [_ [_ [_ ->]]]]. repeat split; simpl; auto.
+    - eexists; reflexivity.
+    - exists [(i, length (heap s))]. reflexivity.
+  Qed.
+
+  Lemma dup_spec : forall fuel s a s' a', Inv0 s -> dup H ct fuel s a = Some (s', a') ->
+    Inv0 s' /\ growR s s' /\ length (heap s) <= a' < length (heap s').
+  Proof.
+    induction fuel as [|f IH]; simpl; intros s a s' a' Hs; [discriminate|].
+    destruct (cell_at s a) as [c|] eqn:Ec; [|discriminate].
+    set (n := length (heap s)).
+    destruct (mapM_st _ s (k_kids c)) as [[s1 ks']|] eqn:Em; [|discriminate].
+    intro Ea.
+    pose (P := fun t : st => Inv0 t /\ n <= length (heap t)).
+    pose (Q := fun (t : st) (y : nat) => n <= y < length (heap t)).
+    pose (Q' := fun (t : st) (k : pystr * (kshape * list nat)) => Forall (Q t) (snd (snd k))).
+    assert (Qmono : forall t t' y, Q t y -> growR t t' -> Q t' y).
+    { intros t t' y [? ?] [G _]. apply grow_len in G. unfold Q. lia. }
+    assert (Hinner : forall t x t' y, P t -> dup H ct f t x = Some (t', y) -> P t' /\ growR t t' /\ Q t' y).
+    { intros t x t' y [Ht Hn] Ed. destruct (IH _ _ _ _ Ht Ed) as [Ht' [G Hy]].
+      pose proof (grow_len _ _ (proj1 G)). unfold P, Q. split; [split; [auto|lia]|split; [exact G|lia]]. }
+    assert (Houter : forall t k t' y, P t ->
+       match mapM_st (dup H ct f) t (snd (snd k)) with
+       | Some (t', l) => Some (t', (fst k, (fst (snd k), l)))
+       | None => None
+       end = Some (t', y) -> P t' /\ growR t t' /\ Q' t' y).
+    { intros t k t' y Ht. destruct (mapM_st (dup H ct f) t (snd (snd k))) as [[t1 l]|] eqn:E1; [|discriminate].
+      intros [= <- <-]. unfold Q'; simpl.
+      exact (mapM_st_spec _ P growR Q growR_refl growR_trans Qmono Hinner _ _ _ _ Ht E1). }
+    assert (Q'mono : forall t t' y, Q' t y -> growR t t' -> Q' t' y).
+    { intros t t' y Hq G. unfold Q' in *. eapply Forall_impl; [|exact Hq]. intros z Hz. eapply Qmono; eauto. }
+    assert (Hp0 : P s) by (split; auto).
+    destruct (mapM_st_spec _ P growR Q' growR_refl growR_trans Q'mono Houter _ _ _ _ Hp0 Em) as [[Hs1 Hn1] [G1 Hq]].
+    assert (Hbelow : forall k, In k (flat_map (fun k => snd (snd k)) ks') -> n <= k < length (heap s1)).
+    { intros k Hin. apply in_flat_map in Hin as [e [He Hk]]. rewrite Forall_forall in Hq.
+      specialize (Hq _ He). unfold Q' in Hq. rewrite Forall_forall in Hq. apply Hq. auto. }
+    assert (Hs' : Inv0 s') by (eapply alloc_inv; eauto; intros k Hk; apply Hbelow in Hk; lia).
+    pose proof (alloc_grow _ _ _ _ _ _ _ Ea) as G2.
+    apply alloc_shape in Ea as [i [_ [-> [_ ->]]]].
+    split; auto. split; [|simpl; rewrite app_length; simpl; fold n; lia].
+    split; [eapply grow_trans; [exact (proj1 G1)|exact G2]|].
+    intros x Hx. simpl in Hx. rewrite app_length in Hx; simpl in Hx.
+    destruct (Nat.lt_ge_cases x (length (heap s1))) as [Hlt|Hge].
+    - destruct (proj2 G1 x) as [cx [Hc [Hk Hr]]]; [fold n; lia|]. exists cx. repeat split; auto.
+      + eapply grow_cell; eauto.
+      + eapply grow_reg; eauto.
+    - assert (x = length (heap s1)) by lia. subst x.
+      eexists. split; [unfold cell_at; simpl; rewrite nth_error_app2, Nat.sub_diag by lia; reflexivity|].
+      split; [|simpl; auto]. intros k Hk. unfold all_kids in Hk; simpl in Hk. apply Hbelow in Hk. fold n. lia.
+  Qed.
+End DupProofs.
+
+(* ================= every step preserves the invariant ================= *)
+Section StepProofs.
+  Variable H : pystr -> pystr.
+  Variable ct : ctable.
+
+  Lemma bind_inv dst r : Inv0 (fst r) -> Inv0 (fst (bind dst r)).
+  Proof. destruct r as [s [| a | b | e | | |]]; simpl; auto. apply set_var_inv. Qed.
+
+  Lemma step_raw_inv s o : Inv0 s -> Inv0 (fst (step_raw H ct true s o)).
+  Proof.
+    intro Hs. destruct o as [dst c og ps ks|dst src|dst src ch|dst src ch|x|x|v|x k]; simpl.
+    - destruct (negb _); [exact Hs|]. destruct (new_args ct s c ps ks) as [| |ks'] eqn:En; try exact Hs.
+      destruct (alloc H ct s c og ps ks') as [[s' a]|] eqn:Ea; [|exact Hs]. simpl.
+      apply set_var_inv. eapply alloc_inv; eauto. eapply new_args_below; eauto.
+    - destruct (negb _); [exact Hs|]. destruct (resolve s src) as [a|]; [|exact Hs].
+      destruct (dup H ct (length (heap s)) s a) as [[s' a']|] eqn:Ed; [|exact Hs]. simpl.
+      apply set_var_inv. eapply dup_spec; eauto.
+    - destruct (negb _); [exact Hs|]. destruct (resolve s src) as [a|]; [|exact Hs].
+      destruct (cell_at s a) as [c|] eqn:Ec; [|exact Hs].
+      destruct (changes ct s (k_cls c) ch) as [| |ch'] eqn:Ech; try exact Hs.
+      apply bind_inv. destruct (dc_replace H ct s a ch') as [s' r] eqn:Ed. simpl.
+      eapply dc_replace_inv; eauto. eapply changes_are_below; eauto.
+    - destruct (negb _); [exact Hs|]. destruct (resolve s src) as [a|]; [|exact Hs].
+      destruct (cell_at s a) as [c|] eqn:Ec; [|exact Hs].
+      destruct (changes ct s (k_cls c) ch) as [| |ch'] eqn:Ech; try exact Hs.
+      apply bind_inv. destruct (replace H ct true s a ch') as [s' r] eqn:Ed. simpl.
+      eapply replace_inv; eauto. eapply changes_are_below; eauto.
+    - destruct (resolve s x) as [a|]; [|exact Hs]. simpl. now apply detach_inv.
+    - destruct (resolve s x) as [a|]; [|exact Hs].
+      pose proof (detach_self_inv s a Hs). destruct (detach_self true s a); auto.
+    - now apply set_var_inv.
+    - destruct (resolve s x); exact Hs.
+  Qed.
+
+  Lemma step_inv0 s o : Inv0 s -> RInv (fst (step H ct true s o)).
+  Proof.
+    intro Hs. unfold step. pose proof (step_raw_inv s o Hs) as Hr.
+    destruct (step_raw H ct true s o) as [s' r]. simpl in *. now apply gc_inv.
+  Qed.
+  Theorem step_inv s o : RInv s -> RInv (fst (step H ct true s o)).
+  Proof. intros [Hs _]. now apply step_inv0. Qed.
+  Theorem run_inv l : forall s, RInv s -> RInv (run H ct true s l).
+  Proof. induction l as [|o l IH]; simpl; auto. intros s Hs. apply IH. now apply step_inv. Qed.
+End StepProofs.
+
+(* ================= what the invariant says about lookups ================= *)
+Section Lookups.
+  Variable ct : ctable.
+
+  Theorem lookup_exact s i a : RInv s ->
+    (get_any s i = Some a <->
+     exists c, cell_at s a = Some c /\ k_id c = i /\ ~ In a (det s) /\ ~ In a (gone s)).
+  Proof.
+    intros [Hs _]. unfold get_any. split.
+    - intro E. apply lookup_in in E. destruct (I_ok _ Hs _ _ E) as [c [Hc Hi]].
+      destruct (I_det _ Hs _ _ E). exists c. auto.
+    - intros [c [Hc [<- [Hd Hg]]]]. apply in_lookup; [apply (I_fun _ Hs)|]. now apply (I_all _ Hs).
+  Qed.
+
+  Theorem registered_reachable s i a : RInv s -> get_any s i = Some a -> reachable s a = true.
+  Proof. intros [_ Hr] E. apply lookup_in in E. eauto. Qed.
+
+  Theorem unreachable_not_returned s a : RInv s -> reachable s a = false -> forall i, get_any s i <> Some a.
+  Proof. intros Hs Hu i E. rewrite (registered_reachable _ _ _ Hs E) in Hu. discriminate. Qed.
+
+  Theorem detached_not_returned s a : RInv s -> In a (det s) -> forall i, get_any s i <> Some a.
+  Proof. intros Hs Hd i E. apply (lookup_exact _ _ _ Hs) in E as [c [_ [_ [Hn _]]]]. auto. Qed.
+
+  Theorem get_class s cls i strict a : RInv s ->
+    (get ct s cls i strict = Some a <->
+     exists c, get_any s i = Some a /\ cell_at s a = Some c /\
+               (if strict then k_cls c = cls else subclass ct (k_cls c) cls = true)).
+  Proof.
+    intros [Hs _]. unfold get, get_any. split.
+    - destruct (lookup i (reg s)) as [b|] eqn:El; [|discriminate].
+      destruct (cell_at s b) as [c|] eqn:Ec; [|discriminate]. destruct strict.
+      + destruct (pystr_eqb_spec (k_cls c) cls); [|discriminate]. intros [= <-]. exists c. auto.
+      + destruct (subclass ct (k_cls c) cls) eqn:Es; [|discriminate]. intros [= <-]. exists c. auto.
+    - intros [c [-> [-> Hc]]]. destruct strict.
+      + subst. now rewrite pystr_eqb_refl.
+      + now rewrite Hc.
+  Qed.
+
+  Theorem unique_ids s a b ca cb : RInv s ->
+    cell_at s a = Some ca -> cell_at s b = Some cb ->
+    get_any s (k_id ca) = Some a -> get_any s (k_id cb) = Some b ->
+    k_id ca = k_id cb -> a = b.
+  Proof. unfold get_any. intros _ _ _ Ea Eb E. rewrite E in Ea. congruence. Qed.
+
+  (* the same, said about the registry as a set of entries: no id is held twice *)
+  Theorem unique_ids_entries s i a b : RInv s -> In (i, a) (reg s) -> In (i, b) (reg s) -> a = b.
+  Proof.
+    intros [Hs _] Ha Hb. apply (in_lookup _ _ _ (I_fun _ Hs)) in Ha. apply (in_lookup _ _ _ (I_fun _ Hs)) in Hb. congruence.
+  Qed.
+End Lookups.
+
+(* ================= a replace() that raises leaves the registry as it was ================= *)
+Lemma reach_ext s s' : heap s' = heap s -> vars s' = vars s -> reachable_set s' = reachable_set s.
+Proof. intros Hh Hv. unfold reachable_set, roots, tree_of. now rewrite Hh, Hv. Qed.
+
+Lemma lookup_restore i a r j : lookup i r = Some a -> lookup j (dict_set i a (remove_id i r)) = lookup j r.
+Proof.
+  intro E. unfold dict_set. simpl. destruct (pystr_eqb_spec j i) as [->|Hne]; [congruence|].
+  now rewrite !lookup_remove_other.
+Qed.
+
+Section Frame.
+  Variable H : pystr -> pystr.
+  Variable ct : ctable.
+
+  Lemma replace_raised s a ch s' e : Inv0 s -> replace H ct true s a ch = (s', Raised e) ->
+    heap s' = heap s /\ vars s' = vars s /\ NoDup (keys (reg s')) /\
+    forall j x, In (j, x) (reg s') <-> In (j, x) (reg s).
+  Proof.
+    intro Hs. unfold replace. destruct (cell_at s a) as [c|] eqn:Ec; [|discriminate].
+    destruct (dc_replace H ct (fst (detach_self true s a)) a ch) as [s2 r2] eqn:Ed.
+    destruct r2; try discriminate.
+    apply dc_replace_raised in Ed. subst s2.
+    destruct (lookup (k_id c) (reg s)) as [b|] eqn:El.
+    - destruct (Nat.eqb_spec a b) as [<-|Hne]; simpl.
+      + rewrite Ec, (detach_self_registered _ _ _ Ec El). simpl. intros [= <- _]. simpl.
+        destruct (restore_equiv (k_id c) a (reg s) (I_fun _ Hs) (lookup_in _ _ _ El)) as [Hnd Heq]. auto.
+      + rewrite (detach_self_unregistered _ _ _ Ec) by congruence. simpl. intros [= <- _]. simpl.
+        repeat split; auto; apply (I_fun _ Hs).
+    - rewrite (detach_self_unregistered _ _ _ Ec) by congruence. simpl. intros [= <- _]. simpl.
+      repeat split; auto; apply (I_fun _ Hs).
+  Qed.
+
+  Lemma lookup_equiv r r' : NoDup (keys r) -> NoDup (keys r') ->
+    (forall j x, In (j, x) r' <-> In (j, x) r) -> forall j, lookup j r' = lookup j r.
+  Proof.
+    intros Hn Hn' Heq j. destruct (lookup j r) as [a|] eqn:E.
+    - apply lookup_in in E. apply Heq in E. now apply in_lookup.
+    - destruct (lookup j r') as [b|] eqn:E'; auto. apply lookup_in in E'. apply Heq in E'.
+      apply lookup_none in E. apply in_keys in E'. tauto.
+  Qed.
+
+  Lemma bind_raised dst r s' e : bind dst r = (s', Raised e) -> r = (s', Raised e).
+  Proof. destruct r as [s [| a | b | e' | | |]]; simpl; auto; discriminate. Qed.
+
+  Theorem replace_fail_frame s dst src ch s' e : RInv s ->
+    step H ct true s (Replace dst src ch) = (s', Raised e) ->
+    heap s' = heap s /\ vars s' = vars s /\ forall j, get_any s' j = get_any s j.
+  Proof.
+    intros [Hs Hr]. unfold step. destruct (step_raw H ct true s (Replace dst src ch)) as [s2 r] eqn:Er.
+    intros [= <- ->]. simpl in Er.
+    destruct (negb _); [discriminate|]. destruct (resolve s src) as [a|]; [|discriminate].
+    destruct (cell_at s a) as [c|]; [|discriminate].
+    destruct (changes ct s (k_cls c) ch) as [| |ch']; try discriminate.
+    apply bind_raised in Er. destruct (replace_raised _ _ _ _ _ Hs Er) as [Hh [Hv [Hnd Heq]]].
+    simpl. repeat split; auto. intro j. unfold get_any. simpl.
+    rewrite (reach_ext _ _ Hh Hv). rewrite filter_all.
+    - apply lookup_equiv; auto. apply (I_fun _ Hs).
+    - intros [i x] Hin. simpl. apply Heq in Hin. exact (Hr _ _ Hin).
+  Qed.
+End Frame.
+
+(* ================= ids ================= *)
+Section Ids.
+  Variable H : pystr -> pystr.
+  Variable ct : ctable.
+
+  (* the id of a new node is the bare digest of its id preimage whenever no registered node holds that id *)
+  Theorem id_deterministic s c o ps ks s' a :
+    alloc H ct s c o ps ks = Some (s', a) ->
+    get_any s (H (id_data_of ct current c o ps (kd_of (heap s) ks))) = None ->
+    exists cl, cell_at s' a = Some cl /\ k_id cl = H (id_data_of ct current c o ps (kd_of (heap s) ks)).
+  Proof.
+    intros Ea El. apply alloc_shape in Ea as [i [_ [-> [En ->]]]].
+    rewrite (next_unique_base _ _ _ El) in En. injection En as <-.
+    eexists. split; [unfold cell_at; simpl; rewrite nth_error_app2, Nat.sub_diag by lia; reflexivity|reflexivity].
+  Qed.
+
+  (* in general: the digest, or the digest with the first free suffix _k, all smaller ones being taken *)
+  Theorem id_is_first_free s c o ps ks s' a :
+    alloc H ct s c o ps ks = Some (s', a) ->
+    exists cl k, cell_at s' a = Some cl /\
+      k_id cl = cand (H (id_data_of ct current c o ps (kd_of (heap s) ks))) k /\
+      get_any s (k_id cl) = None.
+  Proof.
+    intro Ea. apply alloc_shape in Ea as [i [Hi [-> [En ->]]]].
+    assert (Hk : forall fuel k0 r j, next_unique (H (id_data_of ct current c o ps (kd_of (heap s) ks))) k0 fuel r = Some j ->
+                 exists k, j = cand (H (id_data_of ct current c o ps (kd_of (heap s) ks))) k).
+    { induction fuel as [|f IH]; intros k0 r j; simpl; destruct (lookup _ r); try discriminate; eauto;
+        intros [= <-]; eauto. }
+    destruct (Hk _ _ _ _ En) as [k ->].
+    eexists; exists k. split; [unfold cell_at; simpl; rewrite nth_error_app2, Nat.sub_diag by lia; reflexivity|].
+    split; [reflexivity|exact Hi].
+  Qed.
+
+  (* the preimage reads the origin through its fqn only and the properties through the comparable ones only *)
+  Theorem id_data_deps vr c o o' ps ps' kd :
+    ofqn o = ofqn o' -> enc_props ct c ps = enc_props ct c ps' ->
+    id_data_of ct vr c o ps kd = id_data_of ct vr c o' ps' kd.
+  Proof. intros Eo Ep. unfold id_data_of, props_data. now rewrite Eo, Ep. Qed.
+End Ids.
+
+(* ================= the defect repaired by D4, against the code before the repair ================= *)
+Definition demo_ct : ctable := [{| cd_name := lit "A"; cd_bases := []; cd_own := [] |}].
+Definition demo_H (s : pystr) : pystr := s.
+Definition demo_ops : list op :=
+  [New 0 (lit "A") ONo [] []; DetachSelf (0, 0); New 1 (lit "A") ONo [] []; DetachSelf (0, 0)].
+Definition demo (fx : bool) : st := run demo_H demo_ct fx (init_st 2) demo_ops.
+
+(* unrepaired: after x.detach_self(); y = twin; x.detach_self() the live, never detached y (address 1) is not found *)
+Lemma refuted_double_detach :
+  let s := demo false in
+  exists c, cell_at s 1 = Some c /\ reachable s 1 = true /\ ~ In 1 (det s) /\ ~ In 1 (gone s) /\
+            get_any s (k_id c) = None.
+Proof.
+  eexists. split; [vm_compute; reflexivity|]. split; [vm_compute; reflexivity|].
+  split; [vm_compute; intuition lia|]. split; [vm_compute; intuition lia|]. vm_compute. reflexivity.
+Qed.
+Lemma repaired_double_detach :
+  let s := demo true in exists c, cell_at s 1 = Some c /\ get_any s (k_id c) = Some 1.
+Proof. eexists. split; vm_compute; reflexivity. Qed.
+
+(* ================= C14: duplicate ================= *)
+Lemma nodup_app_disjoint {A} (l1 l2 : list A) x : NoDup (l1 ++ l2) -> In x l1 -> ~ In x l2.
+Proof.
+  induction l1 as [|y l1 IH]; simpl; [tauto|]. intro Hnd. inversion Hnd; subst.
+  intros [->|Hin]; [|auto]. intro Hx. apply H1. apply in_or_app. auto.
+Qed.
+
+Lemma pre_above n s' : range_ok n s' ->
+  forall fuel a x, n <= a -> In x (pre (heap s') fuel a) -> n <= x.
+Proof.
+  intro Hr. induction fuel as [|f IH]; simpl; [tauto|]. intros a x Ha.
+  destruct (nth_error (heap s') a) as [c|] eqn:E; [|simpl; tauto].
+  intros [<-|Hin]; auto. apply in_flat_map in Hin as [k [Hk Hx]].
+  assert (Hlt : a < length (heap s')) by (apply nth_error_Some; congruence).
+  destruct (Hr a) as [c' [Hc' [Hkids _]]]; [lia|]. unfold cell_at in Hc'. rewrite E in Hc'. injection Hc' as <-.
+  eapply IH; [|exact Hx]. auto.
+Qed.
+
+Section Copies.
+  Variable H : pystr -> pystr.
+  Variable ct : ctable.
+
+  (* every node of the copy is a new object, registered under its id *)
+  Theorem dup_fresh fuel s a s' a' : Inv0 s -> dup H ct fuel s a = Some (s', a') ->
+    forall x, In x (tree_of s' a') ->
+      length (heap s) <= x /\ exists c, cell_at s' x = Some c /\ get_any s' (k_id c) = Some x.
+  Proof.
+    intros Hs Ed x Hx. destruct (dup_spec H ct _ _ _ _ _ Hs Ed) as [Hs' [[G Hr] Ha']].
+    assert (Hge : length (heap s) <= x) by (apply (pre_above _ _ Hr (length (heap s')) a' x); [lia|exact Hx]).
+    split; auto. apply pre_in_bound in Hx. destruct (Hr x) as [c [Hc [_ Hin]]]; [lia|].
+    exists c. split; auto. apply in_lookup; auto. apply (I_fun _ Hs').
+  Qed.
+
+  (* ... and its id is the id of no node registered before the call *)
+  Theorem dup_ids_disjoint fuel s a s' a' : Inv0 s -> dup H ct fuel s a = Some (s', a') ->
+    forall x c, In x (tree_of s' a') -> cell_at s' x = Some c -> get_any s (k_id c) = None.
+  Proof.
+    intros Hs Ed x c Hx Hc. destruct (dup_spec H ct _ _ _ _ _ Hs Ed) as [Hs' [[G Hr] Ha']].
+    assert (Hge : length (heap s) <= x) by (apply (pre_above _ _ Hr (length (heap s')) a' x); [lia|exact Hx]).
+    apply pre_in_bound in Hx. destruct (Hr x) as [c' [Hc' [_ Hin]]]; [lia|]. rewrite Hc in Hc'. injection Hc' as <-.
+    destruct G as [_ [[nr Hnr] _]]. pose proof (I_fun _ Hs') as Hnd. rewrite Hnr in Hnd, Hin.
+    unfold keys in Hnd. rewrite map_app in Hnd.
+    apply in_app_or in Hin as [Hin|Hin].
+    - apply lookup_notin. eapply nodup_app_disjoint; eauto. now apply in_keys in Hin.
+    - exfalso. destruct (I_ok _ Hs _ _ Hin) as [c0 [Hc0 _]]. apply cell_at_lt in Hc0. lia.
+  Qed.
+
+  (* duplicate never runs out of fuel: the recursion follows children, which have smaller addresses *)
+  Lemma mapM_st_some {S A B} (f : S -> A -> option (S * B)) (P : S -> Prop) :
+    forall l, (forall s x, In x l -> P s -> exists s' y, f s x = Some (s', y) /\ P s') ->
+    forall s, P s -> exists s' ys, mapM_st f s l = Some (s', ys) /\ P s'.
+  Proof.
+    induction l as [|x l IH]; simpl; intros Hf s Hs; [eauto|].
+    destruct (Hf s x (or_introl eq_refl) Hs) as [s1 [y [-> Hs1]]].
+    destruct (IH (fun s x Hin => Hf s x (or_intror Hin)) s1 Hs1) as [s2 [ys [-> Hs2]]]. eauto.
+  Qed.
+
+  Lemma dup_total : forall fuel s0 s a, Inv0 s0 -> Inv0 s -> grow s0 s -> a < fuel -> a < length (heap s0) ->
+    exists s' a', dup H ct fuel s a = Some (s', a').
+  Proof.
+    induction fuel as [|f IH]; intros s0 s a Hs0 Hs G Hlt Ha; [lia|]. simpl.
+    destruct (cell_at s0 a) as [c|] eqn:Ec0; [|apply nth_error_None in Ec0; lia].
+    rewrite (grow_cell _ _ _ _ G Ec0).
+    pose (P := fun t : st => Inv0 t /\ grow s0 t).
+    assert (Hin : forall t k, In k (k_kids c) -> P t -> exists t' y,
+       match mapM_st (dup H ct f) t (snd (snd k)) with
+       | Some (t', l) => Some (t', (fst k, (fst (snd k), l)))
+       | None => None
+       end = Some (t', y) /\ P t').
+    { intros t k Hk [Ht Gt].
+      destruct (mapM_st_some (dup H ct f) P (snd (snd k))) with (s := t) as [t' [ys [E Ht']]].
+      - intros t1 x Hx [Ht1 Gt1].
+        assert (x < a) by (eapply (I_heap _ Hs0); eauto; unfold all_kids; apply in_flat_map; eauto).
+        destruct (IH s0 t1 x Hs0 Ht1 Gt1) as [t2 [y E]]; try lia.
+        exists t2, y. split; auto. destruct (dup_spec H ct _ _ _ _ _ Ht1 E) as [Ht2 [[G2 _] _]].
+        split; auto. eapply grow_trans; eauto.
+      - split; auto.
+      - rewrite E. eauto. }
+    destruct (mapM_st_some _ P (k_kids c) Hin s) as [s1 [ks' [-> [Hs1 G1]]]]; [split; auto|].
+    destruct (alloc H ct s1 (k_cls c) (k_org c) (k_props c) ks') as [[s' a']|] eqn:Ea;
+      [eauto|exfalso; revert Ea; apply alloc_some].
+  Qed.
+
+  Theorem dup_never_out_of_fuel s a : Inv0 s -> a < length (heap s) ->
+    dup H ct (length (heap s)) s a <> None.
+  Proof.
+    intros Hs Ha. destruct (dup_total (length (heap s)) s s a Hs Hs (grow_refl s) Ha Ha) as [s' [a' ->]]. discriminate.
+  Qed.
+End Copies.
+
+(* ================= C14: replace ================= *)
+Lemma assoc_map_upd {A} (g : pystr -> A -> A) (l : list (pystr * A)) n :
+  assoc n (map (fun k => (fst k, g (fst k) (snd k))) l) = option_map (g n) (assoc n l).
+Proof.
+  induction l as [|[k v] l IH]; simpl; auto.
+  destruct (pystr_eqb_spec k n) as [->|Hne]; auto.
+Qed.
+
+Section Replace.
+  Variable H : pystr -> pystr.
+  Variable ct : ctable.
+
+  Lemma new_kids_upd c ch : new_kids c ch =
+    map (fun k => (fst k, (fun n old => match assoc n ch with Some (VKids v) => v | _ => old end) (fst k) (snd k))) (k_kids c).
+  Proof. unfold new_kids. apply map_ext. intros [n v]; simpl. destruct (assoc n ch) as [[| |]|]; auto. Qed.
+  Lemma new_props_upd c ch : new_props c ch =
+    map (fun k => (fst k, (fun n old => match assoc n ch with Some (VProp v) => v | _ => old end) (fst k) (snd k))) (k_props c).
+  Proof. unfold new_props. apply map_ext. intros [n v]; simpl. destruct (assoc n ch) as [[| |]|]; auto. Qed.
+
+  (* dataclasses.replace and ASTNode.replace: same class; a changed field holds the given value, every other
+     field holds what the original holds (children: the very same addresses) *)
+  Theorem dc_replace_fields s a ch s' a' c : cell_at s a = Some c -> dc_replace H ct s a ch = (s', OkNode a') ->
+    exists c', cell_at s' a' = Some c' /\ a' = length (heap s) /\ k_cls c' = k_cls c /\
+      k_org c' = (match assoc (lit "origin") ch with Some (VOrigin o) => o | _ => k_org c end) /\
+      (forall n, assoc n (k_props c') =
+                 option_map (fun old => match assoc n ch with Some (VProp v) => v | _ => old end) (assoc n (k_props c))) /\
+      (forall n, assoc n (k_kids c') =
+                 option_map (fun old => match assoc n ch with Some (VKids v) => v | _ => old end) (assoc n (k_kids c))).
+  Proof.
+    intros Ec. unfold dc_replace. rewrite Ec. destruct (dc_check _ _ _); [discriminate|].
+    destruct (alloc _ _ _ _ _ _ _) as [[s1 a1]|] eqn:Ea; [|discriminate]. intros [= <- <-].
+    apply alloc_shape in Ea as [i [_ [-> [_ ->]]]].
+    eexists. split; [unfold cell_at; simpl; rewrite nth_error_app2, Nat.sub_diag by lia; reflexivity|].
+    simpl. repeat split; auto.
+    - intro n. rewrite new_props_upd.
+      exact (assoc_map_upd (fun n old => match assoc n ch with Some (VProp v) => v | _ => old end) (k_props c) n).
+    - intro n. rewrite new_kids_upd.
+      exact (assoc_map_upd (fun n old => match assoc n ch with Some (VKids v) => v | _ => old end) (k_kids c) n).
+  Qed.
+
+  (* dataclasses.replace leaves a registered original registered and the copy gets another id *)
+  Theorem dc_replace_keeps_orig s a ch s' a' c : cell_at s a = Some c -> get_any s (k_id c) = Some a ->
+    dc_replace H ct s a ch = (s', OkNode a') ->
+    get_any s' (k_id c) = Some a /\ exists c', cell_at s' a' = Some c' /\ k_id c' <> k_id c /\ get_any s' (k_id c') = Some a'.
+  Proof.
+    intros Ec El. unfold dc_replace. rewrite Ec. destruct (dc_check _ _ _); [discriminate|].
+    destruct (alloc _ _ _ _ _ _ _) as [[s1 a1]|] eqn:Ea; [|discriminate]. intros [= <- <-].
+    apply alloc_shape in Ea as [i [Hi [-> [_ ->]]]]. unfold get_any in *. simpl.
+    assert (Hne : i <> k_id c) by congruence.
+    split.
+    - destruct (pystr_eqb_spec (k_id c) i); [congruence|auto].
+    - eexists. split; [unfold cell_at; simpl; rewrite nth_error_app2, Nat.sub_diag by lia; reflexivity|].
+      simpl. split; auto. now rewrite pystr_eqb_refl.
+  Qed.
+
+  (* ASTNode.replace = unregister the original (if it is registered), then dataclasses.replace *)
+  Theorem replace_is_fresh_construction s a ch s' a' : replace H ct true s a ch = (s', OkNode a') ->
+    dc_replace H ct (fst (detach_self true s a)) a ch = (s', OkNode a').
+  Proof.
+    unfold replace. destruct (cell_at s a) as [c|] eqn:Ec; [|discriminate].
+    destruct (dc_replace H ct (fst (detach_self true s a)) a ch) as [s2 r2] eqn:Ed.
+    destruct r2; try discriminate; auto.
+    destruct (match lookup (k_id c) (reg s) with Some b => _ | None => None end); discriminate.
+  Qed.
+
+  Lemma dc_replace_ghost s a ch s' a' : dc_replace H ct s a ch = (s', OkNode a') ->
+    det s' = det s /\ gone s' = gone s /\ vars s' = vars s.
+  Proof.
+    unfold dc_replace. destruct (cell_at s a); [|discriminate]. destruct (dc_check _ _ _); [discriminate|].
+    destruct (alloc _ _ _ _ _ _ _) as [[s1 a1]|] eqn:Ea; [|discriminate]. intros [= <- <-].
+    apply alloc_shape in Ea as [i [_ [_ [_ ->]]]]. simpl. auto.
+  Qed.
+
+  Theorem replace_unregisters s a ch s' a' c : Inv0 s -> changes_below (length (heap s)) ch ->
+    cell_at s a = Some c -> replace H ct true s a ch = (s', OkNode a') ->
+    In a (det s') /\ get_any s' (k_id c) <> Some a.
+  Proof.
+    intros Hs Hch Ec Er. pose proof (replace_inv H ct _ _ _ _ _ Hs Hch Er) as Hs'.
+    apply replace_is_fresh_construction in Er.
+    assert (Hd : In a (det (fst (detach_self true s a)))).
+    { unfold detach_self. rewrite Ec. destruct (lookup _ _); [destruct (_ && _)|]; simpl; auto. }
+    destruct (dc_replace_ghost _ _ _ _ _ Er) as [Hdet _]. rewrite <- Hdet in Hd.
+    split; auto. intro E. apply lookup_in in E. destruct (I_det _ Hs' _ _ E). auto.
+  Qed.
+
+  (* corollary: when the original is registered and carries exactly the digest the new content hashes to
+     (only non-comparable fields changed; no twin holds the id), the new node takes over the original's id *)
+  Theorem replace_keeps_id s a ch s' a' c : cell_at s a = Some c -> get_any s (k_id c) = Some a ->
+    replace H ct true s a ch = (s', OkNode a') ->
+    k_id c = H (id_data_of ct current (k_cls c) (new_origin c ch) (new_props c ch) (kd_of (heap s) (new_kids c ch))) ->
+    exists c', cell_at s' a' = Some c' /\ k_id c' = k_id c.
+  Proof.
+    intros Ec El Er Eid. apply replace_is_fresh_construction in Er.
+    rewrite (detach_self_registered _ _ _ Ec El) in Er. simpl in Er.
+    unfold dc_replace in Er. unfold cell_at in Er; simpl in Er. fold (cell_at s a) in Er. rewrite Ec in Er.
+    destruct (dc_check _ _ _); [discriminate|].
+    destruct (alloc _ _ _ _ _ _ _) as [[s1 a1]|] eqn:Ea; [|discriminate]. injection Er as <- <-.
+    destruct (id_deterministic H ct _ _ _ _ _ _ _ Ea) as [cl [Hc Hi]].
+    - simpl. rewrite <- Eid. unfold get_any. simpl. apply lookup_remove_same.
+    - exists cl. split; auto. rewrite Hi. simpl. now rewrite <- Eid.
+  Qed.
+End Replace.
+
+(* ================= C10: no step changes an existing cell (either variant of detach) ================= *)
+Definition hext (s s' : st) : Prop := exists ext, heap s' = heap s ++ ext.
+Lemma hext_refl s : hext s s. Proof. exists []. now rewrite app_nil_r. Qed.
+Lemma hext_trans a b c : hext a b -> hext b c -> hext a c.
+Proof. intros [e1 H1] [e2 H2]. exists (e1 ++ e2). now rewrite H2, H1, app_assoc. Qed.
+Lemma hext_eq s s' : heap s' = heap s -> hext s s'.
+Proof. intro E. exists []. now rewrite app_nil_r. Qed.
+
+Section FrameProofs.
+  Variable H : pystr -> pystr.
+  Variable ct : ctable.
+  Variable fx : bool.
+
+  Lemma alloc_hext s c o ps ks s' a : alloc H ct s c o ps ks = Some (s', a) -> hext s s'.
+  Proof. intro Ea. apply alloc_shape in Ea as [i [_ [_ [_ ->]]]]. eexists; reflexivity. Qed.
+
+  Lemma dup_hext : forall fuel s a s' a', dup H ct fuel s a = Some (s', a') -> hext s s'.
+  Proof.
+    induction fuel as [|f IH]; simpl; intros s a s' a'; [discriminate|].
+    destruct (cell_at s a) as [c|]; [|discriminate].
+    destruct (mapM_st _ s (k_kids c)) as [[s1 ks']|] eqn:Em; [|discriminate]. intro Ea.
+    assert (H1 : hext s s1).
+    { refine (proj1 (proj2 (mapM_st_spec _ (fun _ => True) hext (fun _ _ => True) hext_refl hext_trans
+                               (fun _ _ _ _ _ => I) _ _ _ _ _ I Em))).
+      intros t k t' y _. destruct (mapM_st (dup H ct f) t (snd (snd k))) as [[t1 l]|] eqn:E1; [|discriminate].
+      intros [= <- <-]. split; auto. split; auto.
+      refine (proj1 (proj2 (mapM_st_spec _ (fun _ => True) hext (fun _ _ => True) hext_refl hext_trans
+                               (fun _ _ _ _ _ => I) _ _ _ _ _ I E1))).
+      intros t2 x t3 y2 _ Ed. split; auto. split; auto. eapply IH; eauto. }
+    eapply hext_trans; eauto. eapply alloc_hext; eauto.
+  Qed.
+
+  Lemma dc_replace_hext s a ch s' r : dc_replace H ct s a ch = (s', r) -> hext s s'.
+  Proof.
+    unfold dc_replace. destruct (cell_at s a); [|intros [= <- _]; apply hext_refl].
+    destruct (dc_check _ _ _); [intros [= <- _]; apply hext_refl|].
+    destruct (alloc _ _ _ _ _ _ _) as [[s1 a1]|] eqn:Ea; intros [= <- _]; [eapply alloc_hext; eauto|apply hext_refl].
+  Qed.
+
+  Lemma replace_hext s a ch s' r : replace H ct fx s a ch = (s', r) -> hext s s'.
+  Proof.
+    unfold replace. destruct (cell_at s a) as [c|]; [|intros [= <- _]; apply hext_refl].
+    destruct (detach_self_frame fx s a) as [Hh _].
+    destruct (dc_replace H ct (fst (detach_self fx s a)) a ch) as [s2 r2] eqn:Ed.
+    apply dc_replace_hext in Ed.
+    assert (H2 : hext s s2) by (eapply hext_trans; [apply hext_eq; exact Hh|exact Ed]).
+    destruct r2; try (intros [= <- _]; exact H2).
+    destruct (match lookup (k_id c) (reg s) with Some b => _ | None => None end); intros [= <- _]; exact H2.
+  Qed.
+
+  Lemma bind_hext dst r s : hext s (fst r) -> hext s (fst (bind dst r)).
+  Proof. destruct r as [s1 [| a | b | e | | |]]; simpl; auto. Qed.
+
+  Lemma step_hext s o : hext s (fst (step H ct fx s o)).
+  Proof.
+    unfold step. destruct (step_raw H ct fx s o) as [s' r] eqn:E. simpl.
+    assert (Hx : hext s s'); [|destruct Hx as [e He]; exists e; exact He].
+    replace s' with (fst (step_raw H ct fx s o)) by now rewrite E. clear E.
+    destruct o as [dst c og ps ks|dst src|dst src ch|dst src ch|x|x|v|x k]; simpl.
+    - destruct (negb _); [apply hext_refl|]. destruct (new_args ct s c ps ks); try apply hext_refl.
+      destruct (alloc H ct s c og ps x) as [[s1 a]|] eqn:Ea; [|apply hext_refl]. simpl.
+      apply alloc_hext in Ea. destruct Ea as [e He]. exists e. exact He.
+    - destruct (negb _); [apply hext_refl|]. destruct (resolve s src) as [a|]; [|apply hext_refl].
+      destruct (dup H ct (length (heap s)) s a) as [[s1 a']|] eqn:Ed; [|apply hext_refl]. simpl.
+      apply dup_hext in Ed. destruct Ed as [e He]. exists e. exact He.
+    - destruct (negb _); [apply hext_refl|]. destruct (resolve s src) as [a|]; [|apply hext_refl].
+      destruct (cell_at s a) as [c|]; [|apply hext_refl].
+      destruct (changes ct s (k_cls c) ch); try apply hext_refl.
+      apply bind_hext. destruct (dc_replace H ct s a x) as [s1 r1] eqn:Ed. eapply dc_replace_hext; eauto.
+    - destruct (negb _); [apply hext_refl|]. destruct (resolve s src) as [a|]; [|apply hext_refl].
+      destruct (cell_at s a) as [c|]; [|apply hext_refl].
+      destruct (changes ct s (k_cls c) ch); try apply hext_refl.
+      apply bind_hext. destruct (replace H ct fx s a x) as [s1 r1] eqn:Ed. eapply replace_hext; eauto.
+    - destruct (resolve s x) as [a|]; [|apply hext_refl]. simpl. apply hext_eq.
+      apply (fold_detach_frame fx (tree_of s a) s).
+    - destruct (resolve s x) as [a|]; [|apply hext_refl].
+      destruct (detach_self_frame fx s a) as [Hh _]. destruct (detach_self fx s a). apply hext_eq. exact Hh.
+    - apply hext_eq. reflexivity.
+    - destruct (resolve s x); apply hext_refl.
+  Qed.
+
+  Theorem heap_frame s o a : a < length (heap s) ->
+    nth_error (heap (fst (step H ct fx s o))) a = nth_error (heap s) a.
+  Proof. intro Ha. destruct (step_hext s o) as [e ->]. now apply nth_error_app1. Qed.
+
+  Theorem run_heap_frame l : forall s a, a < length (heap s) ->
+    nth_error (heap (run H ct fx s l)) a = nth_error (heap s) a.
+  Proof.
+    induction l as [|o l IH]; simpl; auto. intros s a Ha.
+    rewrite IH; [now apply heap_frame|]. destruct (step_hext s o) as [e ->]. rewrite app_length. lia.
+  Qed.
+End FrameProofs.
+
+(* ================= no fuelled loop runs out ================= *)
+Section Fuel.
+  Variable H : pystr -> pystr.
+  Variable ct : ctable.
+
+  Lemma dc_replace_no_fuel s a ch : snd (dc_replace H ct s a ch) <> FuelOut.
+  Proof.
+    unfold dc_replace. destruct (cell_at s a); [|discriminate]. destruct (dc_check _ _ _); [discriminate|].
+    destruct (alloc _ _ _ _ _ _ _) as [[s1 a1]|] eqn:Ea; [discriminate|]. exfalso. revert Ea. apply alloc_some.
+  Qed.
+  Lemma bind_snd dst r : snd r <> FuelOut -> snd (bind dst r) <> FuelOut.
+  Proof. destruct r as [s1 [| a | b | e | | |]]; simpl; auto. Qed.
+
+  Theorem step_no_fuel_out s o : RInv s -> snd (step H ct true s o) <> FuelOut.
+  Proof.
+    intros [Hs _]. unfold step. destruct (step_raw H ct true s o) as [s' r] eqn:E. simpl.
+    replace r with (snd (step_raw H ct true s o)) by now rewrite E. clear E.
+    destruct o as [dst c og ps ks|dst src|dst src ch|dst src ch|x|x|v|x k]; simpl.
+    - destruct (negb _); [discriminate|]. destruct (new_args ct s c ps ks); try discriminate.
+      destruct (alloc H ct s c og ps x) as [[s1 a]|] eqn:Ea; [discriminate|]. exfalso. revert Ea. apply alloc_some.
+    - destruct (negb _); [discriminate|]. destruct (resolve s src) as [a|] eqn:Er; [|discriminate].
+      destruct (dup H ct (length (heap s)) s a) as [[s1 a']|] eqn:Ed; [discriminate|].
+      exfalso. revert Ed. apply dup_never_out_of_fuel; auto. eapply resolve_lt; eauto.
+    - destruct (negb _); [discriminate|]. destruct (resolve s src) as [a|]; [|discriminate].
+      destruct (cell_at s a) as [c|]; [|discriminate]. destruct (changes ct s (k_cls c) ch); try discriminate.
+      apply bind_snd. apply dc_replace_no_fuel.
+    - destruct (negb _); [discriminate|]. destruct (resolve s src) as [a|]; [|discriminate].
+      destruct (cell_at s a) as [c|] eqn:Ec; [|discriminate]. destruct (changes ct s (k_cls c) ch); try discriminate.
+      apply bind_snd. unfold replace. rewrite Ec.
+      pose proof (dc_replace_no_fuel (fst (detach_self true s a)) a x) as Hn.
+      destruct (dc_replace H ct (fst (detach_self true s a)) a x) as [s2 r2]. simpl in Hn.
+      destruct r2; try discriminate; auto.
+      destruct (match lookup (k_id c) (reg s) with Some b => _ | None => None end); discriminate.
+    - destruct (resolve s x); discriminate.
+    - destruct (resolve s x); [|discriminate]. destruct (detach_self true s n). discriminate.
+    - discriminate.
+    - destruct (resolve s x); discriminate.
+  Qed.
+End Fuel.
+
+(* ================= example states (premises of the theorems are inhabited) ================= *)
+Definition ex_ct : ctable :=
+  [{| cd_name := lit "A"; cd_bases := [];
+      cd_own := [{| fd_name := lit "v"; fd_role := RProp; fd_compare := true; fd_init := true; fd_kwonly := false |};
+                 {| fd_name := lit "note"; fd_role := RProp; fd_compare := false; fd_init := true; fd_kwonly := false |}] |};
+   {| cd_name := lit "B"; cd_bases := [];
+      cd_own := [{| fd_name := lit "xs"; fd_role := RChild KTup; fd_compare := true; fd_init := true; fd_kwonly := false |}] |}].
+Definition ex_leaf (dst : nat) (v : Z) : op :=
+  New dst (lit "A") ONo [(lit "v", VInt v); (lit "note", VStr (lit "n"))] [].
+Definition ex_ops : list op :=
+  [ex_leaf 0 1; ex_leaf 1 1; New 2 (lit "B") ONo [] [(lit "xs", (ShMany, [(0, 0); (1, 0)]))];
+   DetachSelf (0, 0); Drop 1].
+(* a one-character "digest": plenty of collisions *)
+Definition ex_H (s : pystr) : pystr := firstn 1 (rev s).
+Definition ex_state : st := run ex_H ex_ct true (init_st 4) ex_ops.
+
+Lemma ex_state_inv : RInv ex_state.
+Proof. apply run_inv. apply inv_init. Qed.
